@@ -70,6 +70,10 @@ func runC14(p *Program, r *Result) {
 	}
 	checkLoops(p, r)
 	checkLimits(p, r)
+	r.Rule("R14.7", "a passphrase identity derives a key only for a work factor within its configured maximum (= R10.3)", 1)
+	if idu := r.anchor(pkgAge, "ScryptIdentity", "unwrap"); idu != nil {
+		checkScryptWorkBound(p, r, idu)
+	}
 	r.Rule("R14.6", "armor failures stay typed through the layers above: source errors are wrapped with %w", 5)
 	checkSourceErrorsWrapped(p, r, libPkgs)
 	for i, e := range table {
